@@ -205,6 +205,10 @@ def check_changed_flag(ctx, rep, rule: str, tr: Transformer):
                             n_loop_defs += 1
                             if flag not in {n.id for n in ast.walk(s.value) if isinstance(n, ast.Name)}:
                                 bad = s
+                        elif isinstance(s, ast.Assign) and any(isinstance(t, (ast.Tuple, ast.List)) and any(isinstance(e, ast.Name) and e.id == flag for e in t.elts) for t in s.targets):
+                            # unpacking a child's (flag, node) result straight into the accumulator
+                            n_loop_defs += 1
+                            bad = s
                         elif isinstance(s, ast.AugAssign) and isinstance(s.target, ast.Name) and s.target.id == flag:
                             n_loop_defs += 1
                 if n_loop_defs == 0:
@@ -214,3 +218,256 @@ def check_changed_flag(ctx, rep, rule: str, tr: Transformer):
                     rep.violation(rule, cons, f"`{flag}` is overwritten in every iteration (`{ast.unparse(bad)}`) and then decides whether the original node is returned: only the last child counts, rewritten children before it are discarded", f"{f.path}:{bad.lineno}")
                 else:
                     rep.ok(rule, cons, f"`{flag}` accumulates over all children", f.loc())
+
+
+# ---------------------------------------------------------------------- falsy zero (E10)
+FZ_EXCLUDED = ("jaqalpaq.emulator", "jaqalpaq.run", "jaqalpaq.ipc", "jaqalpaq._cli", "jaqalpaq._import",
+               "jaqalpaq.core.algorithm.walkers", "jaqalpaq.core.result", "jaqalpaq.utilities", "jaqalpaq.scheduler", "jaqalpaq.transpilers")
+FZ_RULE_TEXT = ("a value slot that can legitimately hold the number 0 (count, index, macro argument, let value, S-expression argument, "
+                "numeric grammar value) is never tested by truthiness: 0 is not 'absent'")
+
+
+def falsy_zero(ctx):
+    """One falsy-zero analysis over the front end, builder, passes, generator and equality code (cached on ctx)."""
+    if "falsy_zero" in ctx.cache:
+        return ctx.cache["falsy_zero"]
+    from ..truthy import Config, FalsyZero
+    from ..lexer import extract_lexer, extract_parser
+
+    ix, T = ctx.ix, ctx.typer
+    funcs = [f for f in ix.functions.values()
+             if f.module.startswith("jaqalpaq.") and not any(f.module == m or f.module.startswith(m + ".") for m in FZ_EXCLUDED)]
+    CONST = "jaqalpaq.core.constant.Constant"
+    ANNV = "jaqalpaq.core.parameter.AnnotatedValue"
+    GATE = "jaqalpaq.core.gate.GateStatement"
+    typed = set()
+    for c in (CONST, ANNV):
+        if c in ix.classes:
+            typed |= {(c, "value"), (c, "_value")}
+    cfg = Config(
+        attrs={"iterations", "_iterations", "alias_index", "_alias_index"},
+        typed_attrs=typed,
+        map_names={"arguments", "override_dict"},
+        passthrough={"as_integer", "filter_float", "int", "float", "build", "visit", "build_count", "resolve_constant"},
+    )
+    cfg.typed_map_attrs = {(GATE, "parameters"), (GATE, "_parameters")}
+
+    # S-expression arguments: `<sexpr>.args` where the receiver is an SExpression (typed or by the repository's naming)
+    def container_pred(f, e):
+        if not (isinstance(e, ast.Attribute) and e.attr == "args"):
+            return False
+        ts = T.expr_types.get(id(e.value)) or ()
+        if any(t.endswith(".SExpression") for t in ts):
+            return True
+        return isinstance(e.value, ast.Name) and e.value.id in ("sexpression", "sexpr")
+    cfg.container_pred = container_pred
+
+    # numeric grammar symbols: fixpoint over the production methods
+    lm = extract_lexer(ix)
+    pm = extract_parser(ix)
+    numeric = {r.name for r in lm.rules if r.conversion in ("int", "float", "int-other")}
+    by_func = {}
+    for p in pm.productions:
+        by_func.setdefault(p.func.qualname, []).append(p)
+    pfuncs = [p.func for p in pm.productions]
+
+    def make_sources():
+        srcs = {}
+        for q, prods in by_func.items():
+            fi = prods[0].func
+            tree = fi.params[1] if len(fi.params) > 1 else None
+            if tree is None:
+                continue
+            names = set()
+            idx = set()
+            for p in prods:
+                for i, s in enumerate(p.rhs):
+                    if s in numeric:
+                        names.add(s)
+                        idx.add(i)
+                        # sly numbers repeated symbols: INT0, INT1
+                        names.add(f"{s}0")
+                        names.add(f"{s}1")
+
+            def pred(e, tree=tree, names=frozenset(names), idx=frozenset(idx)):
+                if isinstance(e, ast.Attribute) and isinstance(e.value, ast.Name) and e.value.id == tree and e.attr in names:
+                    return True
+                if isinstance(e, ast.Subscript) and isinstance(e.value, ast.Name) and e.value.id == tree and isinstance(e.slice, ast.Constant) and e.slice.value in idx:
+                    return True
+                return False
+            srcs[q] = pred
+        return srcs
+
+    for _ in range(10):
+        cfg.func_sources = make_sources()
+        fz = FalsyZero(ix, T, pfuncs, cfg)
+        new = set(numeric)
+        for p in pm.productions:
+            if p.func.qualname in fz.ret_slot:
+                new.add(p.lhs)
+        if new == numeric:
+            break
+        numeric = new
+    cfg.func_sources = make_sources()
+    fz = FalsyZero(ix, T, funcs, cfg)
+    res = {"engine": fz, "hits": fz.hits(), "numeric_symbols": sorted(numeric), "funcs": funcs}
+    ctx.cache["falsy_zero"] = res
+    return res
+
+
+def check_falsy_zero(ctx, rep, rule: str, modules, floor_positions: int = 1):
+    """Report the falsy-zero hits that lie in ``modules`` (prefix match) under ``rule``."""
+    from ..truthy import truth_positions
+
+    res = falsy_zero(ctx)
+    rep.rule(rule, FZ_RULE_TEXT, floor=1)
+
+    def inmods(f):
+        return any(f.module == m or f.module.startswith(m + ".") for m in modules)
+    funcs = [f for f in res["funcs"] if inmods(f)]
+    if not funcs:
+        raise AnalysisError(f"{rule}: no functions in {modules} (anchor vanished)")
+    rep.analysed.setdefault("falsy_zero_numeric_symbols", res["numeric_symbols"])
+    by_mod = {}
+    for f in funcs:
+        by_mod.setdefault(f.module, [0, 0])
+        by_mod[f.module][0] += len(truth_positions(f.node))
+        by_mod[f.module][1] += len(res["engine"].slots[f.qualname])
+    hits = [h for h in res["hits"] if inmods(h.func)]
+    bad_mods = set()
+    seen = set()
+    for h in hits:
+        cons = construct_of(h.func, f"truthiness:{ast.unparse(h.node)[:60]}")
+        if cons in seen:
+            continue
+        seen.add(cons)
+        bad_mods.add(h.func.module)
+        rep.violation(rule, cons, f"`{ast.unparse(h.node)}` is tested by truthiness ({h.why}) but is {h.origin}, which can be the number 0: zero would be treated as absent/false", f"{h.func.path}:{h.node.lineno}")
+    total = 0
+    for m, (npos, nslots) in sorted(by_mod.items()):
+        total += npos
+        if m not in bad_mods:
+            rep.ok(rule, f"{short(m)}:truthiness-positions", f"{npos} truthiness positions, {nslots} slot-valued names tracked; none tests a value slot")
+    if total < floor_positions:
+        raise AnalysisError(f"{rule}: only {total} truthiness positions found in {modules}; expected at least {floor_positions}")
+
+
+# ---------------------------------------------------------------------- fast paths
+FP_RULE_TEXT = ("a fast path that returns (part of) its input untransformed is guarded by a test that consults every part it skips "
+                "(a guard that never looks at a member cannot know that nothing in it needs rewriting)")
+
+
+# a guard on this attribute settles these members too (reason each)
+FP_GUARD_COVERS = {
+    "fundamental": ({"alias_from", "alias_slice"}, "Register.fundamental is `alias_from is None`, and a register without a source has no slice (Register.__init__)"),
+}
+
+
+def _attr_reads_of(name: str, exprs) -> set:
+    out = set()
+    for e in exprs:
+        for m in ast.walk(e):
+            if isinstance(m, ast.Attribute) and isinstance(m.value, ast.Name) and m.value.id == name:
+                out.add(m.attr)
+                if m.attr in FP_GUARD_COVERS:
+                    out |= FP_GUARD_COVERS[m.attr][0]
+    return out
+
+
+def check_fast_paths(ctx, rep, rule: str, funcs, entry_required: Optional[Dict[str, set]] = None, floor: int = 1):
+    """See FP_RULE_TEXT.  ``funcs``: visitor handlers / entry functions; ``entry_required``: qualname -> members an
+    input-returning path of that entry function must have consulted."""
+    from ..fieldflow import FuncFlow
+    from ..cfg import iter_stmts
+
+    ix, T = ctx.ix, ctx.typer
+    rep.rule(rule, FP_RULE_TEXT, floor=floor)
+    entry_required = entry_required or {}
+    n_funcs = 0
+    for f in funcs:
+        if isinstance(f.node, ast.Lambda):
+            continue
+        params = f.params[1:] if f.cls else f.params
+        if not params:
+            continue
+        x = params[0]
+        n_funcs += 1
+        # members of x handed to a visit on some path of f
+        visited = set()
+        for n in walk_no_nested(f.node):
+            if isinstance(n, ast.Call) and isinstance(n.func, ast.Attribute) and n.func.attr == "visit":
+                visited |= _attr_reads_of(x, n.args)
+            if isinstance(n, (ast.For, ast.comprehension)):
+                # for s in x.m: ... self.visit(s)
+                its = _attr_reads_of(x, [n.iter])
+                if its:
+                    body_nodes = n.body if isinstance(n, ast.For) else []
+                    tgt = {t.id for t in ast.walk(n.target) if isinstance(t, ast.Name)}
+                    for b in body_nodes:
+                        for c in ast.walk(b):
+                            if isinstance(c, ast.Call) and isinstance(c.func, ast.Attribute) and c.func.attr == "visit" and any(isinstance(a, ast.Name) and a.id in tgt for a in c.args):
+                                visited |= its
+        for n in walk_no_nested(f.node):
+            if isinstance(n, (ast.ListComp, ast.GeneratorExp, ast.DictComp, ast.SetComp)):
+                elt_calls = [c for c in ast.walk(n) if isinstance(c, ast.Call) and isinstance(c.func, ast.Attribute) and c.func.attr == "visit"]
+                if elt_calls:
+                    for g in n.generators:
+                        visited |= _attr_reads_of(x, [g.iter])
+        required_whole = entry_required.get(f.qualname, visited)
+        fl = None
+        for st in iter_stmts(f.body):
+            if not isinstance(st, ast.Return) or st.value is None:
+                continue
+            vals = st.value.elts if isinstance(st.value, ast.Tuple) else [st.value]
+            skipped = set()
+            what = None
+            for v in vals:
+                if isinstance(v, ast.Name) and v.id == x and required_whole:
+                    skipped |= set(required_whole)
+                    what = x
+                elif isinstance(v, ast.Attribute) and isinstance(v.value, ast.Name) and v.value.id == x and v.attr in visited:
+                    skipped.add(v.attr)
+                    what = f"{x}.{v.attr}"
+            if not skipped:
+                continue
+            if fl is None:
+                fl = FuncFlow(ix, T, f)
+            tests = fl.control_tests(st)
+            cons = construct_of(f, f"fast-path:return {what}")
+            loc = f"{f.path}:{st.lineno}"
+            if not tests:
+                # unconditional return of the input on the only path: this handler simply does not transform
+                continue
+            exprs = list(tests)
+            for t in tests:
+                ids, roots = fl.depends(t)
+                exprs += list(roots)
+            reads = _attr_reads_of(x, exprs)
+            # one level into helpers that receive x (or a member of x) as an argument
+            whole_unresolved = False
+            for e in exprs:
+                for c in ast.walk(e):
+                    if not isinstance(c, ast.Call):
+                        continue
+                    for i, a in enumerate(c.args):
+                        if isinstance(a, ast.Name) and a.id == x:
+                            targets = [t for cs in T.callsites(f) if cs.node is c for t in cs.targets]
+                            if not targets:
+                                whole_unresolved = True
+                            for t in targets:
+                                ps = t.params[1:] if (t.cls and not t.is_staticmethod) else t.params
+                                if i < len(ps):
+                                    reads |= _attr_reads_of(ps[i], [t.node])
+            missing = sorted(skipped - reads)
+            if missing and whole_unresolved:
+                rep.undecided(rule, cons, f"the guard passes `{x}` to a call that could not be resolved", loc)
+            elif missing:
+                rep.violation(rule, cons, f"`{ast.unparse(st)}` hands back `{what}` untransformed under a guard ({'; '.join(ast.unparse(t)[:50] for t in tests)}) that never consults {', '.join(f'{x}.{m}' for m in missing)}: whatever needs rewriting there is skipped", loc)
+            else:
+                rep.ok(rule, cons, f"guard consults {', '.join(sorted(skipped))}", loc)
+    if n_funcs == 0:
+        raise AnalysisError(f"{rule}: no functions to analyse (anchor vanished)")
+    mods = sorted({short(f.module) for f in funcs})
+    rep.ok(rule, f"{'+'.join(mods)}:fast-path-scan", f"{n_funcs} handlers/entry functions scanned for returns of (a visited member of) their input")
+    rep.analysed.setdefault("fast_path_functions", 0)
+    rep.analysed["fast_path_functions"] += n_funcs
